@@ -548,8 +548,15 @@ pub fn c18(thorough: bool, stats: &mut Stats) -> Vec<Failure> {
             t.add("f.lua", f.as_bytes());
             scs.push(Scenario {
                 desc: format!("C18 file={:?} format={}", f, fmt),
-                tree: t,
+                tree: t.clone(),
                 run: Run { argv: vec!["--check".into(), "--color".into(), "Never".into(), "--output-format".into(), fmt.into(), "f.lua".into()], ..Run::default() },
+            });
+            // the same text through stdin (the diff is produced by another caller of the same functions); the name listed
+            // by the summary format is then `stdin`
+            scs.push(Scenario {
+                desc: format!("C18 file={:?} format={} via=stdin", f, fmt),
+                tree: t,
+                run: Run { argv: vec!["--check".into(), "--color".into(), "Never".into(), "--output-format".into(), fmt.into(), "-".into()], stdin: Some(f.as_bytes().to_vec()), ..Run::default() },
             });
         }
     }
@@ -596,7 +603,7 @@ pub fn c18(thorough: bool, stats: &mut Stats) -> Vec<Failure> {
                 }
             }
             "Summary" => {
-                let listed = stdout.lines().any(|l| l.trim() == "f.lua");
+                let listed = stdout.lines().any(|l| l.trim() == if s.desc.ends_with("via=stdin") { "stdin" } else { "f.lua" });
                 if listed != differs {
                     f.push(("summary-wrong".into(), format!("summary lists the file: {}, file differs: {}", listed, differs)));
                 }
@@ -1844,6 +1851,87 @@ pub fn c20(_thorough: bool, stats: &mut Stats) -> Vec<Failure> {
             push(format!("C20 malformed stylua.toml {:?} target={}", b, target), t, vec!["--color".into(), "Never".into(), target.into()], d, 120, true, &mut scs, &mut metas);
         }
     }
+    // a malformed file in every other place the search consults (a representative of each way of being malformed)
+    let bad_reps = ["indnt_width = 2", "indent_width = \"five\"", "unknown_key = 1", "[unknown_table]\nx = 1", "[sort_requires]\nenable = true", "quote_style = \"NoSuchValue\""];
+    // (place of the file relative to the scratch root, extra arguments, working directory)
+    let places: Vec<(&str, Vec<&str>, &str)> = vec![
+        ("w/.stylua.toml", vec![], "w"),
+        ("stylua.toml", vec!["--search-parent-directories"], "w"),
+        (".stylua.toml", vec!["--search-parent-directories"], "w"),
+        ("elsewhere/cfg.toml", vec!["--config-path", "$ROOT/elsewhere/cfg.toml"], "w"),
+        ("_xdg/stylua.toml", vec!["--search-parent-directories"], "w"),
+        ("_xdg/stylua/stylua.toml", vec!["--search-parent-directories"], "w"),
+        ("_home/.config/stylua.toml", vec!["--search-parent-directories"], "w"),
+        ("_home/.config/stylua/stylua.toml", vec!["--search-parent-directories"], "w"),
+    ];
+    for b in bad_reps {
+        for (place, extra, cwd) in &places {
+            for target in ["f.lua", "sub/g.lua", "-"] {
+                let mut t = Tree::default();
+                t.add("w/f.lua", probe.as_bytes());
+                t.add("w/sub/g.lua", probe.as_bytes());
+                t.add("_home/", b"");
+                t.add("_xdg/", b"");
+                t.add(place, format!("{}\n", b).as_bytes());
+                let mut argv: Vec<String> = vec!["--color".into(), "Never".into()];
+                argv.extend(extra.iter().map(|x| x.to_string()));
+                argv.push(target.into());
+                let desc = format!("C20 malformed {} {:?} target={}", place, b, target);
+                metas.push((desc.clone(), 120, d, true));
+                scs.push(Scenario { desc, tree: t, run: Run { argv, cwd: cwd.to_string(), stdin: if target == "-" { Some(probe.as_bytes().to_vec()) } else { None }, ..Run::default() } });
+            }
+        }
+    }
+    // every carrier again with the text coming from stdin (two more callers of the configuration code), and the flag in
+    // the presence of a file / .editorconfig that says something else (the flag still means what it says)
+    for (w, v) in &all {
+        let Some(other) = all.iter().find(|(w2, v2)| v2.opt == v.opt && (v2.cfg != v.cfg || w2 != w)) else { continue };
+        for (tname, targs) in [("stdin", vec!["-"]), ("stdin@f.lua", vec!["--stdin-filepath", "f.lua", "-"])] {
+            for carrier in ["stylua.toml", "flag", ".editorconfig", "flag-over-stylua.toml", "flag-over-.editorconfig"] {
+                let mut t = Tree::default();
+                t.add("keep.lua", b"local x = 1\n");
+                let mut argv: Vec<String> = vec!["--color".into(), "Never".into()];
+                match carrier {
+                    "stylua.toml" => {
+                        t.add("stylua.toml", format!("{}\n", v.toml).as_bytes());
+                    }
+                    "flag" => argv.extend(v.flag.clone()),
+                    ".editorconfig" => match &v.ec {
+                        Some((k, val)) => {
+                            t.add(".editorconfig", format!("root = true\n[*.lua]\n{} = {}\n", k, val).as_bytes());
+                        }
+                        None => continue,
+                    },
+                    "flag-over-stylua.toml" => {
+                        if v.flag.is_empty() {
+                            continue;
+                        }
+                        t.add("stylua.toml", format!("{}\n", other.1.toml).as_bytes());
+                        argv.extend(v.flag.clone());
+                    }
+                    _ => {
+                        if v.flag.is_empty() {
+                            continue;
+                        }
+                        match &other.1.ec {
+                            Some((k, val)) => {
+                                t.add(".editorconfig", format!("root = true\n[*.lua]\n{} = {}\n", k, val).as_bytes());
+                            }
+                            None => continue,
+                        }
+                        argv.extend(v.flag.clone());
+                    }
+                }
+                argv.extend(targs.iter().map(|x| x.to_string()));
+                let desc = format!("C20 option={} carrier={} value={:?} width={} target={}", v.opt, carrier, if carrier.starts_with("flag") { format!("{:?}", v.flag) } else { v.toml.clone() }, w, tname);
+                if metas.iter().any(|m| m.0 == desc) {
+                    continue;
+                }
+                metas.push((desc.clone(), *w, v.cfg, false));
+                scs.push(Scenario { desc, tree: t, run: Run { argv, stdin: Some(probe.as_bytes().to_vec()), ..Run::default() } });
+            }
+        }
+    }
     let idx: std::collections::HashMap<String, usize> = scs.iter().enumerate().map(|(i, s)| (s.desc.clone(), i)).collect();
     let probe_s = probe.to_string();
     run_all(scs, "E2-C20", stats, |s, o| {
@@ -1853,10 +1941,13 @@ pub fn c20(_thorough: bool, stats: &mut Stats) -> Vec<Failure> {
             if o.code != 2 {
                 f.push(("malformed-config-accepted".into(), format!("exit {} for a malformed configuration file (expected 2)", o.code)));
             }
-            for p in ["f.lua", "sub/g.lua"] {
+            for p in ["f.lua", "sub/g.lua", "w/f.lua", "w/sub/g.lua"] {
                 if o.after.get(p).map(|x| &x.0) != o.before.get(p).map(|x| &x.0) {
                     f.push(("malformed-config-file-modified".into(), format!("{} was modified although the configuration is malformed", p)));
                 }
+            }
+            if !o.stdout.is_empty() {
+                f.push(("malformed-config-output".into(), format!("{} bytes on stdout although the configuration is malformed", o.stdout.len())));
             }
             return f;
         }
@@ -1869,7 +1960,8 @@ pub fn c20(_thorough: bool, stats: &mut Stats) -> Vec<Failure> {
             f.push(("exit-status".into(), format!("exit {} (expected {}): {}", o.code, want_code, String::from_utf8_lossy(&o.stderr).chars().take(160).collect::<String>())));
             return f;
         }
-        let got = String::from_utf8_lossy(&o.after["f.lua"].0).to_string();
+        let got = if s.run.stdin.is_some() { String::from_utf8_lossy(&o.stdout).to_string() } else { String::from_utf8_lossy(&o.after["f.lua"].0).to_string() };
+        let exp = if s.run.stdin.is_some() && want_code == 2 { String::new() } else { exp };
         if got != exp {
             let at = got.bytes().zip(exp.bytes()).position(|(a, b)| a != b).unwrap_or(got.len().min(exp.len()));
             f.push(("carrier-differs".into(), format!("file is not the library output for the intended Config (first difference at byte {}: {:?} vs {:?})", at, got.chars().skip(at.saturating_sub(10)).take(40).collect::<String>(), exp.chars().skip(at.saturating_sub(10)).take(40).collect::<String>())));
